@@ -315,4 +315,169 @@ theorem unique_ids_invariant (orc : UriOracle) (kvs : List (String × Json)) (p 
           exact hu.2
       · simp [a1, a2, a3, a4, a5, a6, a7, a8] at ha
 
+/-! ### well-formedness -/
+
+/-- a member that holds keys or services: absent, `null`, or a list of objects and of nothing else -/
+def ListOfObjects (o : Option Json) : Prop :=
+  o = none ∨ o = some .null ∨ ∃ xs, o = some (.arr xs) ∧ ∀ x ∈ xs, IsObj x
+
+/-- a document whose `publicKey` and `service` members hold keys and services only -/
+def WellFormed (doc : Json) : Prop := ListOfObjects (doc.get? "publicKey") ∧ ListOfObjects (doc.get? "service")
+
+theorem listOrNull_wf (xs : List Json) (h : ∀ x ∈ xs, IsObj x) : ListOfObjects (some (listOrNull xs)) := by
+  unfold listOrNull
+  split
+  · exact .inr (.inl rfl)
+  · exact .inr (.inr ⟨xs, rfl, h⟩)
+
+theorem replaceMember_wf (m : Option Json) (h : Validator.replaceMemberOK m = true) : ListOfObjects (some (m.getD .null)) := by
+  cases m with
+  | none => exact .inr (.inl rfl)
+  | some v =>
+    cases v with
+    | null => exact .inr (.inl rfl)
+    | arr xs =>
+      refine .inr (.inr ⟨xs, rfl, ?_⟩)
+      simp only [Validator.replaceMemberOK, Validator.allObjects, List.all_eq_true] at h
+      intro x hx
+      have := h x hx
+      cases x <;> simp_all [isObjB, IsObj]
+    | _ => simp [Validator.replaceMemberOK, Validator.allObjects] at h
+
+/-- **validated patches never leave anything but keys in `publicKey` and services in `service`**:
+    a well-formed document stays well-formed under every validated patch (all eight actions) — so no
+    later patch ever meets an entry that the accessors would skip (what D31 was about) -/
+theorem wellformed_invariant (orc : UriOracle) (kvs : List (String × Json)) (p doc' : Json)
+    (hw : WellFormed (.obj kvs)) (hv : Validator.validate orc p = .ok)
+    (ha : applyPatch (.obj kvs) p = .ok doc') : WellFormed doc' := by
+  unfold Validator.validate at hv
+  unfold applyPatch at ha
+  cases hact : getAction p with
+  | none => simp [hact] at ha
+  | some action =>
+    cases hval : getValue p with
+    | none => simp [hact, hval] at ha
+    | some value =>
+      simp only [hact, hval] at ha hv
+      by_cases a1 : action = "replace"
+      · subst a1
+        simp only [if_true] at ha hv
+        cases value with
+        | obj o =>
+          simp only [replaceDoc] at ha
+          cases ha
+          simp only [Validator.ofBool] at hv
+          split at hv
+          · rename_i hb
+            simp only [Bool.and_eq_true] at hb
+            constructor
+            · have := replaceMember_wf _ hb.1.1.1.2
+              simpa [Json.get?, Json.lookup] using this
+            · have := replaceMember_wf _ hb.1.1.2
+              simpa [Json.get?, Json.lookup] using this
+          · cases hv
+        | null => simp at hv
+        | bool b => simp at hv
+        | num n => simp at hv
+        | str s => simp at hv
+        | arr xs => simp at hv
+      by_cases a2 : action = "ietf-json-patch"
+      · subst a2
+        simp only [a1, if_false, if_true] at ha hv
+        by_cases hr : Validator.requiredArray (some value) = true
+        · simp only [hr, Bool.not_true, Bool.false_eq_true, if_false] at hv
+          cases value with
+          | arr ops =>
+            have hiv : Validator.ietfVerdict ops = .ok := by
+              simp only [Json.arr?, Option.getD_some] at hv
+              cases hh : Validator.ietfVerdict ops <;> simp_all
+            have hall : ops.all isObjB = true := by
+              unfold Validator.ietfVerdict at hiv
+              split at hiv
+              · cases hiv
+              · rename_i h; simpa using h
+            have hdec : Lib.decodePatch (.arr ops) = some ops := by
+              simp only [Lib.decodePatch]
+              have : ops.all isObjOrNullB = true := by
+                rw [List.all_eq_true] at hall ⊢
+                intro x hx
+                have := hall x hx
+                cases x <;> simp_all [isObjB, isObjOrNullB]
+              simp [this]
+            simp only [hdec] at ha
+            cases hap : Lib.applyAll (Json.obj kvs) ops with
+            | ok d =>
+              simp only [hap] at ha
+              cases ha
+              obtain ⟨h1, h2⟩ := C11.validated_preserves_keys_and_services ops kvs doc' hiv hap
+              unfold WellFormed at hw ⊢
+              rw [h1, h2]
+              exact hw
+            | err => simp [hap] at ha
+            | panic => simp [hap] at ha
+            | blowup => simp [hap] at ha
+          | null => simp [Validator.requiredArray] at hr
+          | bool b => simp [Validator.requiredArray] at hr
+          | num n => simp [Validator.requiredArray] at hr
+          | str s => simp [Validator.requiredArray] at hr
+          | obj o => simp [Validator.requiredArray] at hr
+        · simp [hr] at hv
+      -- the six list actions: the member they write is a list of objects, the other one is untouched
+      have hk := hw.1
+      have hs := hw.2
+      by_cases a3 : action = "add-public-keys"
+      · subst a3
+        simp only [a1, a2, if_false, if_true] at ha
+        cases ha
+        exact ⟨by rw [get_setDoc_same]; exact listOrNull_wf _ (upsert_all_obj _ _ (objectEntries_all_obj _) (objectEntries_all_obj _)),
+               by rw [get_setDoc_ne kvs "publicKey" "service" _ (by decide)]; exact hs⟩
+      by_cases a4 : action = "remove-public-keys"
+      · subst a4
+        simp only [a1, a2, a3, if_false, if_true] at ha
+        cases ha
+        exact ⟨by rw [get_setDoc_same]; exact listOrNull_wf _ (remove_all_obj _ _ (objectEntries_all_obj _)),
+               by rw [get_setDoc_ne kvs "publicKey" "service" _ (by decide)]; exact hs⟩
+      by_cases a5 : action = "add-services"
+      · subst a5
+        simp only [a1, a2, a3, a4, if_false, if_true] at ha
+        cases ha
+        exact ⟨by rw [get_setDoc_ne kvs "service" "publicKey" _ (by decide)]; exact hk,
+               by rw [get_setDoc_same]; exact listOrNull_wf _ (upsert_all_obj _ _ (objectEntries_all_obj _) (objectEntries_all_obj _))⟩
+      by_cases a6 : action = "remove-services"
+      · subst a6
+        simp only [a1, a2, a3, a4, a5, if_false, if_true] at ha
+        cases ha
+        exact ⟨by rw [get_setDoc_ne kvs "service" "publicKey" _ (by decide)]; exact hk,
+               by rw [get_setDoc_same]; exact listOrNull_wf _ (remove_all_obj _ _ (objectEntries_all_obj _))⟩
+      by_cases a7 : action = "add-also-known-as"
+      · subst a7
+        simp only [a1, a2, a3, a4, a5, a6, if_false, if_true] at ha
+        cases ha
+        exact ⟨by rw [get_setDoc_ne kvs "alsoKnownAs" "publicKey" _ (by decide)]; exact hk,
+               by rw [get_setDoc_ne kvs "alsoKnownAs" "service" _ (by decide)]; exact hs⟩
+      by_cases a8 : action = "remove-also-known-as"
+      · subst a8
+        simp only [a1, a2, a3, a4, a5, a6, a7, if_false, if_true] at ha
+        cases ha
+        exact ⟨by rw [get_setDoc_ne kvs "alsoKnownAs" "publicKey" _ (by decide)]; exact hk,
+               by rw [get_setDoc_ne kvs "alsoKnownAs" "service" _ (by decide)]; exact hs⟩
+      · simp [a1, a2, a3, a4, a5, a6, a7, a8] at ha
+
+/-- … and on a well-formed document the accessors skip nothing: every entry of the member is an object -/
+theorem wellformed_entries (doc : Json) (h : WellFormed doc) (xs : List Json) (hx : doc.get? "publicKey" = some (.arr xs)) :
+    objectEntries (doc.get? "publicKey") = xs := by
+  rcases h.1 with e | e | ⟨ys, e, hall⟩
+  · rw [hx] at e; cases e
+  · rw [hx] at e; cases e
+  · rw [hx] at e
+    cases e
+    simp only [hx, objectEntries]
+    apply List.filter_eq_self.mpr
+    intro x hxm
+    have := hall x hxm
+    cases x <;> simp_all [IsObj, isObjB]
+
+/-- the empty document is well-formed, so every document reachable by validated patches is -/
+example : WellFormed (.obj []) := ⟨.inl rfl, .inl rfl⟩
+
 end Sidetree.Props.C10
